@@ -50,13 +50,140 @@ def nontrivial(job, result):
 
 
 def run(ctx):
-    cc.run_family(
+    out = cc.run_family(
         ctx,
         "C03",
         selftest=selftest,
         nontrivial=nontrivial,
         rule="one real encode/serialise/validate/decode run per configuration of the TLC-enumerated pairwise design; evaluations = runs judged by the C03 clauses (encoder accepted); non-trivial = accepted run with >= 2 pictures or fragmented pictures",
     )
+    ctx.coverage["supplementary_runs"] = supplement(ctx, out["cfgs"])
+    ctx.assumptions.append("supplement: low-delay picture_bytes = k * slices + r for every remainder r in 1..slices-1, k about 1/5 and 1/2 of the raw bytes of a slice, noise / checkerboard content")
+
+
+# ---------------------------------------------------------------------------------- supplement
+# Low-delay pictures whose slices have DIFFERENT byte sizes (13.5.3.2: picture_bytes is not a multiple of the
+# slice count) and are filled tightly.  The picture_bytes classes of the design (n, n+1, 5n+1, 260n+7, ...) have
+# remainder 0, 1 or 7 only and are mostly either starved or slack; an encoder that budgets a slice with the size of
+# ANOTHER slice (transposed / shifted slice numbering) is invisible there.  For enumerated low-delay configurations
+# of every slice grid (non-square grids first: there slices_x and slices_y are distinguishable) the encoder is run
+# with picture_bytes = k * slices + r for EVERY remainder r, two budgets k well below the raw size of a slice (so
+# the rate control has to quantise and fills the slices to the last byte) and noise / checkerboard content.
+# The runs are judged by the same CodecTrace clauses (TLC); concretisation only here.
+def _uneven_cfgs(allc, per_grid):
+    grids = {}
+    for c in allc:
+        cfg = c["cfg"]
+        if cfg["mode"] == "ld_lossy" and cfg["sx"] * cfg["sy"] >= 2:
+            grids.setdefault((cfg["sx"], cfg["sy"]), []).append(c)
+    picked = []
+    for g in sorted(grids, key=lambda g: (g[0] == g[1], g)):
+        want = per_grid if g[0] != g[1] else max(1, per_grid // 3)
+        seen, first, rest = set(), [], []
+        for c in grids[g]:
+            cfg = c["cfg"]
+            key = (cfg["d"], cfg["dho"], cfg["size"], cfg["cdf"])
+            (rest if key in seen else first).append(c)
+            seen.add(key)
+        # prefer pictures with enough samples per slice for the budget to bind
+        first.sort(key=lambda c: -(c["outcome"]["dims"]["yw"] * c["outcome"]["dims"]["yh"]))
+        picked += (first + rest)[:want]
+    return picked
+
+
+def _uneven_jobs(ctx, allc):
+    jobs = []
+    for i, c in enumerate(_uneven_cfgs(allc, ctx.pick(4, 40))):
+        cfg, o = c["cfg"], c["outcome"]
+        n = cfg["sx"] * cfg["sy"]
+        dm = o["dims"]
+        raw = (dm["yw"] * dm["yh"] * o["ydepth"] + 2 * dm["cw"] * dm["ch"] * o["cdepth"]) // (8 * n)  # raw bytes of a slice
+        for r in range(1, n):
+            for j, k in enumerate((max(2, raw // 5), max(3, raw // 2))):
+                content = "random" if (r + j) % 3 else "checker"
+                c2 = dict(cfg, minq=0, minscaler=1, content=content, pb="uneven", npics=(2 if cfg["pcm"] == 1 else 1))
+                if c2["pn"] in ("seven", "wrap1") and cfg["pcm"] == 1:
+                    c2["pn"] = "zero"
+                o2 = dict(o, picture_bytes=k * n + r, numbers=o["numbers"][: c2["npics"]])
+                jobs.append({"tid": len(jobs) + 1, "cfg": c2, "outcome": o2, "seed": ctx.seed * 23 + 7 * i + r + 100 * j, "repack": [], "rem": r, "k": k})
+    return jobs
+
+
+def _supp_selftest_runs(jobs):
+    """binding self-test, part 1: supplementary runs executed with a broken implementation (the encoder budgets every
+    low-delay slice with the size of the NEXT slice in raster order); the records are judged together with the real ones"""
+    from vc2_conformance.encoder import pictures as encp
+
+    orig = encp.slice_bytes
+
+    def broken(state, sx, sy):
+        k = (sy * state["slices_x"] + sx + 1) % (state["slices_x"] * state["slices_y"])
+        return orig(state, k % state["slices_x"], k // state["slices_x"])
+
+    nonsq = [j for j in jobs if j["cfg"]["sx"] != j["cfg"]["sy"]]
+    step = max(1, len(nonsq) // 30)
+    encp.slice_bytes = broken
+    try:
+        recs = []
+        for j in nonsq[::step][:30]:
+            recs += cc.execute(j)["records"]
+    finally:
+        encp.slice_bytes = orig
+    return recs
+
+
+def supplement(ctx, cfgs):
+    import time
+
+    t0 = time.time()
+    allc = cc.LAST_ALL or cfgs
+    jobs = _uneven_jobs(ctx, allc)
+    if not jobs:
+        raise RuntimeError("vacuous supplement: no low-delay configuration with more than one slice")
+    results = cc.run_jobs(jobs)
+    records, owner = cc.flatten(results)
+    st_recs = _supp_selftest_runs(jobs)
+    allbad, _, res = cc.judge(records + st_recs)  # one TLC run; the lines after len(records) are the self-test's
+    bad = [b for b in allbad if b["line"] <= len(records)]
+    st_bad = [b for b in allbad if b["line"] > len(records) and b["alarm"] and b["clause"].startswith("C03.")]
+    if not st_bad:
+        raise RuntimeError("binding self-test failed: an encoder that budgets each low-delay slice with the next slice's size was not flagged")
+    ctx.add_tlc(res, "trace validation (CodecTrace) of %d supplementary runs (low-delay, uneven slice sizes, tight budgets) + %d self-test runs" % (len(records), len(st_recs)))
+    for b in bad:
+        if b["clause"].startswith("C03.") and b["alarm"]:
+            j = owner[b["line"] - 1]
+            rec, det = records[b["line"] - 1], results[j]["detail"]
+            ctx.violation(
+                "C03|%s|ld-uneven-slices|%s" % (b["clause"].split(".", 1)[1], det.get("exc", "")),
+                "%s on a low-delay run with picture_bytes %d = %d * %d slices + %d: cfg %s: enc=%s ser=%s verdict=%s %s"
+                % (b["clause"], jobs[j]["outcome"]["picture_bytes"], jobs[j]["k"], rec["cfg"]["sx"] * rec["cfg"]["sy"], jobs[j]["rem"], rec["cfg"], rec["enc"], rec["ser"], rec["verdict"], det.get("exc", "")),
+                cc.case_of(jobs[j]),
+            )
+    judged = sum(1 for r in records if r["enc"] == "ok")  # CodecTrace!C03Clause applies to every run the encoder accepted
+    nonsq = [(j, r) for j, r in zip(jobs, records) if j["cfg"]["sx"] != j["cfg"]["sy"]]
+    binding = sum(1 for j, r in nonsq if r["enc"] == "ok" and r["q0"] and not all(r["q0"]))
+    stats = {
+        "runs": len(records),
+        "judged_by_C03_clauses": judged,
+        "non_square_grid_runs": len(nonsq),
+        "non_square_grid_runs_with_binding_budget": binding,
+        "slice_grids": sorted(set("%dx%d" % (j["cfg"]["sx"], j["cfg"]["sy"]) for j in jobs)),
+        "remainders_covered": sorted(set(j["rem"] for j in jobs)),
+        "encoder_outcomes": {},
+    }
+    for r in records:
+        k = "%s/%s/%s" % (r["enc"], r["ser"], r["verdict"])
+        stats["encoder_outcomes"][k] = stats["encoder_outcomes"].get(k, 0) + 1
+    if (binding < 50 and not ctx.violations) or not judged:
+        raise RuntimeError("vacuous supplement: %s" % stats)
+    stats["binding_selftest"] = {
+        "mutant": "encoder.pictures.slice_bytes looked up for the next slice in raster order (in-process monkeypatch)",
+        "runs": len(st_recs),
+        "runs_flagged": len(set(b["line"] for b in st_bad)),
+        "clauses_flagging_it": sorted(set(b["clause"] for b in st_bad)),
+    }
+    stats["wall_s"] = round(time.time() - t0, 1)
+    return stats
 
 
 def replay(case):
